@@ -8,6 +8,7 @@ import (
 	"os"
 	"runtime"
 	"strings"
+	"sync"
 	"sync/atomic"
 	"time"
 
@@ -60,19 +61,21 @@ type c05Snap struct {
 	ended  bool // its writer was ended by the harness (cut short / closed)
 	epoch  int
 	allFed bool
+	done   atomic.Bool // its writer has ended (Wait returned)
 }
 
 type c05Reader struct {
-	slot    int
-	tap     *rtap
-	key     uint64
-	x       int64 // logical position of the first byte it must deliver (log reader) / 0 (snapshot)
-	snap    *c05Snap
-	epoch   int  // log epoch (log reader) or snapshot epoch at open
-	live    bool // the cache declared the offset valid: delivery from x is owed while the epoch lasts
-	stalled bool
-	checked int // bytes already compared
-	opened  string
+	dataEpoch int
+	slot      int
+	tap       *rtap
+	key       uint64
+	x         int64 // logical position of the first byte it must deliver (log reader) / 0 (snapshot)
+	snap      *c05Snap
+	epoch     int  // log epoch (log reader) or snapshot epoch at open
+	live      bool // the cache declared the offset valid: delivery from x is owed while the epoch lasts
+	stalled   bool
+	checked   int // bytes already compared
+	opened    string
 }
 
 type c05W struct {
@@ -104,7 +107,9 @@ type c05W struct {
 	floor     int64
 	logHi     int64 // lower bound of what the log writer(s) of this log epoch have completely processed
 	haveLog   bool
+	dataEpoch int // incremented by resets that discard cached bytes
 	awFailed  *atomic.Bool
+	awDone    *atomic.Bool // the log writer has ended (Wait returned)
 
 	readers [3]*c05Reader
 	closed  bool
@@ -187,7 +192,10 @@ func (w *c05W) newID() string {
 
 func (w *c05W) key() uint64 { return w.keyOf[w.cur] }
 
-func (w *c05W) resetLog()  { w.logEpoch++; w.haveLog = false }
+func (w *c05W) resetLog() { w.logEpoch++; w.haveLog = false }
+
+// discard: the reset also threw cached bytes away (delete, new snapshot, close): a reader from before cannot go on
+func (w *c05W) discard()   { w.dataEpoch++ }
 func (w *c05W) resetSnap() { w.snapEpoch++; w.snap = nil }
 
 // syncLogHi refreshes the lower bound of completely processed log bytes.
@@ -207,13 +215,38 @@ func (w *c05W) syncLogHi() {
 
 // ---------------------------------------------------------------- writer-owner operations
 
+// quiesce advances virtual time until the writers have stored everything that was handed to them (an fsync may be
+// stalled). Writer-owner operations start from there, as in the tool, where a connection's writer has ended — Wait
+// returned — before the next PSYNC decides anything.
+func (w *c05W) quiesce() {
+	for i := 0; i < 6000 && w.viol == nil; i++ {
+		w.r.Settle()
+		busy := false
+		if w.af != nil && !w.awDone.Load() {
+			if fed, consumed, waiting := w.af.state(); !(waiting && consumed == fed) {
+				busy = true
+			}
+		}
+		if s := w.snap; s != nil && s.rw != nil && !s.done.Load() {
+			if fed, consumed, waiting := s.feed.state(); !(waiting && consumed == fed) {
+				busy = true
+			}
+		}
+		if !busy {
+			return
+		}
+		w.r.Advance(cacheTick)
+	}
+}
+
 func (w *c05W) stopLogWriter(why string) {
 	if w.aw == nil {
 		return
 	}
+	w.quiesce()
 	aw, af := w.aw, w.af
 	w.op("close log writer (%s)", why)
-	w.run(w.wr, "AofChannelWriter.Close()", func() { aw.Close() })
+	w.run(w.wr, "AofChannelWriter.Close()", func() { aw.Close(); aw.Wait(context.Background()) })
 	w.syncLogHi()
 	af.CloseWith(io.EOF)
 	w.aw, w.af = nil, nil
@@ -229,7 +262,8 @@ func (w *c05W) endSnapWriter(why string) {
 		w.op("snapshot writer ended at %d/%d (%s)", s.fed, s.n, why)
 		s.ended = true
 	}
-	w.run(w.wr, "RdbChannelWriter.Close()", func() { rw.Close() })
+	w.quiesce()
+	w.run(w.wr, "RdbChannelWriter.Close()", func() { rw.Close(); rw.Wait(context.Background()) })
 	s.feed.CloseWith(io.EOF)
 	s.rw = nil
 }
@@ -254,6 +288,9 @@ func (w *c05W) setRunID(id string, inherits bool) bool {
 	if id != w.cur {
 		w.resetLog() // replication-id switch invalidates readers
 		w.snapEpoch++
+		if !inherits {
+			w.discard() // another history: what was cached under the previous id is out of reach
+		}
 	}
 	w.cur, w.curDir = id, true
 	return true
@@ -278,6 +315,7 @@ func (w *c05W) fullSync() {
 		w.op("DelRunId(%s) err=%v", tailID(cur), err)
 		w.resetLog()
 		w.resetSnap()
+		w.discard()
 		w.curDir = false
 		if w.backend == "memory" {
 			w.cur = ""
@@ -306,6 +344,8 @@ func (w *c05W) fullSync() {
 		s.rw, err = w.ch.NewRdbWriter(s.feed, off, n)
 		if err == nil {
 			s.rw.Start()
+			rw := s.rw
+			go func() { rw.Wait(context.Background()); s.done.Store(true) }()
 		}
 	}) {
 		return
@@ -314,6 +354,7 @@ func (w *c05W) fullSync() {
 	// a new snapshot resets the cache whatever the outcome
 	w.resetLog()
 	w.resetSnap()
+	w.discard()
 	w.right, w.floor, w.logHi = off, off, off
 	if err != nil {
 		return
@@ -343,8 +384,10 @@ func (w *c05W) cutSnap() {
 	if w.r.Gen().Choose("sn.cuthow", 2) == 0 {
 		w.op("snapshot source lost at %d/%d", s.fed, s.n)
 		s.ended = true
+		w.quiesce()
 		s.feed.CloseWith(io.ErrUnexpectedEOF)
-		w.r.Settle()
+		rw := s.rw
+		w.run(w.wr, "RdbChannelWriter.Wait()", func() { rw.Wait(context.Background()) })
 		w.endSnapWriter("source lost")
 	} else {
 		w.endSnapWriter("closed by owner")
@@ -352,6 +395,7 @@ func (w *c05W) cutSnap() {
 }
 
 func (w *c05W) startLogWriter(off int64, why string) {
+	w.quiesce()
 	old := w.af
 	f := newCfeed()
 	var aw syncer.AofChannelWriter
@@ -382,12 +426,13 @@ func (w *c05W) startLogWriter(off int64, why string) {
 	w.aw, w.af, w.awStart, w.right = aw, f, off, off
 	w.logHi = off
 	w.haveLog = true
-	w.awFailed = new(atomic.Bool)
-	failed := w.awFailed
+	w.awFailed, w.awDone = new(atomic.Bool), new(atomic.Bool)
+	failed, done := w.awFailed, w.awDone
 	go func() { // what the tool's syncIncr does: wait for the writer to end
 		if err := aw.Wait(context.Background()); err != nil && !errors.Is(err, io.EOF) {
 			failed.Store(true)
 		}
+		done.Store(true)
 	}()
 }
 
@@ -436,6 +481,7 @@ func (w *c05W) delRunID() {
 	w.op("DelRunId(%s) err=%v", tailID(cur), err)
 	w.resetLog()
 	w.resetSnap()
+	w.discard()
 	w.curDir = false
 	w.cur = ""
 }
@@ -491,7 +537,7 @@ func (w *c05W) openReader(slot int) {
 		return
 	}
 	t := newRtap(rd)
-	rdm := &c05Reader{slot: slot, tap: t, key: w.key(), live: valid}
+	rdm := &c05Reader{slot: slot, tap: t, key: w.key(), live: valid, dataEpoch: w.dataEpoch}
 	if rd.IsAof() {
 		rdm.x, rdm.epoch = x, w.logEpoch
 		rdm.opened = fmt.Sprintf("log reader opened at %d", x)
@@ -648,13 +694,44 @@ func (w *c05W) owed(rd *c05Reader) int64 {
 		}
 		return rd.snap.feed.processed()
 	}
-	if rd.epoch != w.logEpoch || !w.haveLog {
+	if rd.dataEpoch != w.dataEpoch || rd.key != w.key() || !w.haveLog {
 		return -1
 	}
+	// rd.epoch != w.logEpoch: only writer replacements / inheriting id switches since the reader was opened; the
+	// history goes on contiguously. The reader may end or fail (checked by the caller) or go on following.
 	if w.logHi <= rd.x {
 		return -1
 	}
 	return w.logHi - rd.x
+}
+
+// mustEnd: a reader that was valid when opened, is not stalled by its consumer, and that a bytes-discarding cache reset
+// (delete, new snapshot, switch to another history, close) has invalidated: it can only end or fail.
+func (w *c05W) mustEnd(rd *c05Reader) bool {
+	return rd.live && !rd.stalled && rd.dataEpoch != w.dataEpoch
+}
+
+// superseded: invalidated by a reset that kept the bytes (writer replacement, inheriting id switch): the reader may end
+// or fail, or go on following — what it must not do is neither.
+func (w *c05W) superseded(rd *c05Reader) bool {
+	if !rd.live || rd.stalled || rd.dataEpoch != w.dataEpoch {
+		return false
+	}
+	if rd.snap != nil {
+		return rd.epoch != w.snapEpoch
+	}
+	return rd.epoch != w.logEpoch
+}
+
+func (w *c05W) lingering() bool {
+	for _, rd := range w.readers {
+		if rd != nil && w.mustEnd(rd) {
+			if _, _, ended := rd.tap.snapshot(); !ended {
+				return true
+			}
+		}
+	}
+	return false
 }
 
 // drain: bounded liveness — with the writer idle, every still-valid, unstalled reader delivers what has been written.
@@ -672,12 +749,12 @@ func (w *c05W) drain(why string) {
 				continue
 			}
 			if need := w.owed(rd); need >= 0 {
-				if n, _, _ := rd.tap.snapshot(); int64(n) < need {
+				if n, _, ended := rd.tap.snapshot(); int64(n) < need && !(ended && w.superseded(rd)) {
 					behind = true
 				}
 			}
 		}
-		if !behind {
+		if !behind && !w.lingering() {
 			break
 		}
 		w.r.Advance(cacheTick)
@@ -687,11 +764,33 @@ func (w *c05W) drain(why string) {
 		return
 	}
 	for _, rd := range w.readers {
+		if rd == nil || !w.mustEnd(rd) {
+			continue
+		}
+		if n, terr, ended := rd.tap.snapshot(); !ended {
+			w.violate("C05.invalidated_lingers", "a reader invalidated by a cache reset that discarded its bytes neither ends nor fails",
+				"%s was invalidated by a cache reset that discarded the cached bytes (delete, new snapshot, another history, close) long ago (40 s of virtual time) and is not stalled, but its consumer has seen neither the end nor an error (delivered %d bytes, err=%v): it is blocked for ever; operations: %s",
+				rd.opened, n, terr, w.tail())
+			return
+		}
+		simrt.Probe("c05_invalidated_reader_ended")
+	}
+	for _, rd := range w.readers {
 		if rd == nil {
 			continue
 		}
 		need := w.owed(rd)
 		n, terr, ended := rd.tap.snapshot()
+		if need >= 0 && int64(n) < need && ended && w.superseded(rd) {
+			simrt.Probe("c05_superseded_reader_ended")
+			continue
+		}
+		if need >= 0 && int64(n) < need && w.superseded(rd) {
+			w.violate("C05.superseded_lingers", "a reader from before a writer replacement or inheriting id switch neither ends nor follows the new writer",
+				"%s has delivered %d bytes and %d are owed; since it was opened the writer was replaced (or the id switched with the history inherited): it may end, fail or go on following, but it does neither (ended=%v err=%v, 40 s of virtual time): its consumer is blocked for ever; operations: %s",
+				rd.opened, n, need, ended, terr, w.tail())
+			return
+		}
 		if need >= 0 && int64(n) < need {
 			w.violate("C05.reader_stuck", "a still-valid reader does not deliver bytes the writer has written",
 				"%s has delivered %d bytes, %d are owed (written and processed by the writer long ago: 40 s of virtual time); reader ended=%v err=%v; operations: %s",
@@ -739,6 +838,26 @@ func runC05(r *Run, stratum string) *Violation {
 	simfs.SetFS(w.fs)
 	defer simfs.SetFS(nil)
 	w.fs.MkdirAll(c05Base, 0o777)
+	if w.backend == "disk" && g.Choose("slowsync", 2) == 1 {
+		// slow disk: some fsyncs stall for 1-3 polling periods (the file is visible, its writer has not gone on yet).
+		// Decided by a hash of (drawn salt, path, per-path count), not by draw order: syncs of concurrent writers
+		// get the same delays whatever order they are issued in.
+		salt := uint64(g.Choose("slowsalt", 1<<16))
+		cnt := map[string]uint64{}
+		var mu sync.Mutex
+		w.fs.Delay = func(op, path string) time.Duration {
+			mu.Lock()
+			cnt[path]++
+			n := cnt[path]
+			mu.Unlock()
+			h := crc64Jones(salt*0x9e3779b97f4a7c15+n, []byte(path))
+			if h%3 != 0 {
+				return 0
+			}
+			r.W.Fault("slow_fsync")
+			return cacheTick/2 + time.Duration((h>>8)%5)*cacheTick/2
+		}
+	}
 	cacheSetVerify(false)
 	w.ch = syncer.NewChannel(ccfg, "c05")
 	w.wr = newC05Driver("writer-owner")
@@ -849,6 +968,7 @@ func runC05(r *Run, stratum string) *Violation {
 		w.closed = true
 		w.resetLog()
 		w.resetSnap()
+		w.discard()
 		r.Advance(5 * cacheTick)
 		w.checkReaders()
 	}
